@@ -1418,6 +1418,62 @@ def translate(repo):
         raise TranslateError("source shape not understood (%s: %s)" % (type(ex).__name__, ex))
 
 
+# ----------------------------------------------------------------------------- self-test
+SELF_TEST_MUTATIONS = [
+    # (file under include/, old text, new text, what must change)
+    ("tapkee/predicates.hpp", "return (v >= lower) && (v < upper);", "return (v >= lower) && (v <= upper);", "InRange operator"),
+    ("tapkee/methods/base.hpp", "InRange<IndexType>(3, n_vectors)", "InRange<IndexType>(2, n_vectors)", "num_neighbors lower bound"),
+    ("tapkee/methods/tsne.hpp", "(n_vectors - 1) / 3.0", "(n_vectors - 1) / 2.0", "perplexity bound expression"),
+    ("tapkee/defines/keywords.hpp", '("number of neighbors", 5)', '("number of neighbors", 6)', "default value"),
+    ("tapkee/methods.hpp", "if (method.needs_distance && is_dummy<DistanceCallback>::value)",
+     "if (method.needs_distance && is_dummy<KernelCallback>::value)", "callback test"),
+    ("tapkee/embed.hpp", "        parameters.check();\n", "", "duplicate check removed"),
+    ("tapkee/embed.hpp", "throw tapkee::wrong_parameter_error(ex.what());", "throw tapkee::wrong_parameter_type_error(ex.what());", "catch table"),
+    ("tapkee/defines/methods.hpp", "static const DimensionReductionTraits RequiresKernel{true, false, false};",
+     "static const DimensionReductionTraits RequiresKernel{true, true, false};", "traits"),
+    ("tapkee/parameters/defaults.hpp", "tapkee::sne_theta = stichwort::by_default", "tapkee::sne_theta = stichwort::by_default, tapkee::method = stichwort::by_default", "default set"),
+    ("tapkee/methods/diffusion_map.hpp", "parameters[gaussian_kernel_width].checked().satisfies(Positivity<ScalarType>()).orThrow();",
+     "parameters[gaussian_kernel_width].checked().satisfies(NonNegativity<ScalarType>()).orThrow();", "predicate of a cell"),
+    ("tapkee/methods/stochastic_proximity_embedding.hpp", "parameters[spe_global_strategy].is(false)", "parameters[spe_global_strategy].is(true)", "guard"),
+    ("tapkee/methods/isomap.hpp", "find_neighbors_with(plain_distance)", "find_neighbors_with(kernel_distance)", "callback used first"),
+]
+
+
+def self_test(repo, limit=None, scratch=None):
+    """mutate a scratch copy of include/ and require the translator output to change (or the
+    translation to fail loudly).  -> (number of mutations tried, [descriptions of missed ones])"""
+    import shutil
+    import tempfile
+    own = scratch is None
+    scratch = scratch or tempfile.mkdtemp(prefix="t_val_selftest_")
+    try:
+        shutil.rmtree(scratch, ignore_errors=True)
+        os.makedirs(scratch)
+        shutil.copytree(os.path.join(repo, "include"), os.path.join(scratch, "include"))
+        base = json.dumps(translate(scratch)[1], sort_keys=True)
+        missed, n = [], 0
+        for rel, old, new, what in SELF_TEST_MUTATIONS[:limit]:
+            path = os.path.join(scratch, "include", rel)
+            if not os.path.exists(path):
+                continue
+            text = open(path).read()
+            if old not in text:
+                continue                      # the source moved on: this probe does not apply any more
+            n += 1
+            open(path, "w").write(text.replace(old, new, 1))
+            try:
+                changed = json.dumps(translate(scratch)[1], sort_keys=True) != base
+            except TranslateError:
+                changed = True                # a loud failure is fine: nothing is dropped silently
+            finally:
+                open(path, "w").write(text)
+            if not changed:
+                missed.append(what)
+        return n, missed
+    finally:
+        shutil.rmtree(scratch, ignore_errors=True)
+
+
 def write_if_changed(path, text):
     old = open(path).read() if os.path.exists(path) else None
     if old != text:
@@ -1436,7 +1492,12 @@ def main():
     ap.add_argument("--out", default=None)
     ap.add_argument("--json", default=None)
     ap.add_argument("--print", action="store_true")
+    ap.add_argument("--self-test", action="store_true")
     a = ap.parse_args()
+    if a.self_test:
+        n, missed = self_test(a.repo)
+        print("T-val self-test: %d mutations, missed: %s" % (n, missed or "none"))
+        sys.exit(1 if missed or n == 0 else 0)
     try:
         coq, js = translate(a.repo)
     except TranslateError as ex:
